@@ -56,13 +56,13 @@ TB_CPU = ("Trusted: TLC 1.8 + CommunityModules; Cpu.tla's transcription of instr
           "xgetbv, mov r,sreg) are observed natively or through hook H2. invlpgb/tlbsync are #UD on this Intel host and are emulated from the APM description.")
 
 CLAIMS.update({
-    "C11": dict(ref="§5 C11", tech="TLA+ spec of TLB-invalidation requests (Cpu.tla: INVLPG/INVPCID/INVLPGB operand decoding, coverage / per-request maximum / no-gap-crossing predicates) and of flush tokens (PageTables.tla); TLC trace validation of the instructions trapped while the real flush wrappers run; MC_PT_tlb design check (a stale TLB entry is always covered by a pending token); all-pages broadcast flush, ASID range check, very long ranges under a watchdog",
+    "C11": dict(ref="§5 C11", tech="TLA+ spec of TLB-invalidation requests (Cpu.tla: INVLPG/INVPCID/INVLPGB operand decoding, coverage / per-request maximum / no-gap-crossing predicates) and of flush tokens (PageTables.tla); TLC trace validation of the instructions trapped while the real flush wrappers run; MC_PT_tlb design check (a stale TLB entry is always covered by a pending token); all-pages broadcast flush, ASID range check, very long ranges under a watchdog; calling-context and register-pressure probes (Trace_Cpu CtxOK / pressure / lean: each wrapper called from leaf functions that keep a carry, 13 register-held and 8 red-zone values or dirty upper register halves alive across the call, in debug and release) so that an untruthful asm! contract (clobbers, operand width, nostack, pure, preserves_flags) shows",
                 text="Every trapped invlpg / mov-cr3 / invpcid / invlpgb / tlbsync executed by tlb::flush, flush_all, flush_pcid, MapperFlush::flush, MapperFlushAll::flush_all and InvlpgbFlushBuilder::flush (debug+release) is decoded by the specification and checked against the call's arguments: exactly one invalidation of the given address; CR3 reloaded with its current value; descriptor = (PCID, address, kind); broadcast requests sequentially cover the range, counts <= processor maximum, options carried, no request crosses the non-canonical gap (count = additional pages, APM); every successful mapper call of a recorded page-table history returns a token naming the argument page. Found and fixed F9, F10.",
                 note=TB_CPU),
-    "C17": dict(ref="§5 C17", tech="TLA+ state machine of the interrupt flag under nested without_interrupts (MC_Intr.tla) model-checked by TLC and proved inductive for every nesting depth with TLAPS (spec/proofs/IntrProof.tla, 257 obligations, re-checked by every run); TLC trace validation (Trace_Cpu.tla) of all small programs, random deep programs and a window probe (closure loads/stores stay between cli and sti) executed on the real functions with cli/sti/hlt trapped",
+    "C17": dict(ref="§5 C17", tech="TLA+ state machine of the interrupt flag under nested without_interrupts (MC_Intr.tla) model-checked by TLC and proved inductive for every nesting depth with TLAPS (spec/proofs/IntrProof.tla, 257 obligations, re-checked by every run); TLC trace validation (Trace_Cpu.tla) of all small programs, random deep programs and a window probe (closure loads/stores stay between cli and sti) executed on the real functions with cli/sti/hlt trapped; calling-context and register-pressure probes (Trace_Cpu CtxOK / pressure / lean: each wrapper called from leaf functions that keep a carry, 13 register-held and 8 red-zone values or dirty upper register halves alive across the call, in debug and release) so that an untruthful asm! contract (clobbers, operand width, nostack, pure, preserves_flags) shows",
                 text="TLC explores all nestings/interleavings of the documented algorithm with flag-preserving bodies up to depth 4 and checks restoration and IF-clear bodies (tlapm proves the same two invariants for unbounded depth from an inductive strengthening); on the real crate every statement tree with <= 4 nodes (both initial flag states) and random programs to depth 6 run as nested closures; every program point logs trapped instructions and the emulated flag, and TLC checks: body exactly once with IF clear, flag after = flag before, result returned, enable/disable only sti/cli, are_enabled = flag, enable_and_hlt = sti immediately followed by hlt (adjacent addresses).",
                 note=TB_CPU + " rflags::read_raw shows the emulated IF through hook H2 (pushfq cannot be trapped), so a defect inside the pushfq asm itself that only affects the IF bit would be masked."),
-    "C18": dict(ref="§5 C18", tech="TLC trace validation (Trace_Cpu.tla) of every in/out instruction trapped while the real Port objects are used; the finite domain ports x widths x access kinds is enumerated completely",
+    "C18": dict(ref="§5 C18", tech="TLC trace validation (Trace_Cpu.tla) of every in/out instruction trapped while the real Port objects are used; the finite domain ports x widths x access kinds is enumerated completely; calling-context and register-pressure probes (Trace_Cpu CtxOK / pressure / lean: each wrapper called from leaf functions that keep a carry, 13 register-held and 8 red-zone values or dirty upper register halves alive across the call, in debug and release) so that an untruthful asm! contract (clobbers, operand width, nostack, pure, preserves_flags) shows",
                 text="All 65536 ports x 3 widths x {Port read/write, PortReadOnly read, PortWriteOnly write} in debug and release builds: TLC checks per access exactly one instruction, of the type's width (opcode/prefix), DX = port, AL/AX/EAX = value written, returned value = value the emulated device supplied; repeated and discarded reads are separate accesses; equality/clone/clone_from follow the port number.",
                 note=TB_CPU + " 'Without touching memory' is not observed (ordinary memory accesses do not trap)."),
 })
